@@ -1,6 +1,7 @@
 package props
 
 import (
+	"go/ast"
 	"go/token"
 	"go/types"
 	"strings"
@@ -173,9 +174,15 @@ func deferredCallsSeeTheCurrentValue(c *kit.Ctx) {
 						}
 					}
 				}
-				// a value that a later phi of the same variable replaces
+				// a value that a later phi of the same variable replaces (the variable the defer statement names, where
+				// that can be read off the syntax: the same value may also be the start of another variable - the
+				// parameter of an expanded helper that walks through the buffer)
+				names := deferOperandNames(p, fn, d)
 				for _, r := range kit.Referrers(a) {
 					if ph, ok := r.(*ssa.Phi); ok && len(ph.Block().Instrs) > 0 && kit.Reaches(d, ph.Block().Instrs[0]) && ph.Comment != "" {
+						if len(names) > 0 && !names[ph.Comment] {
+							continue
+						}
 						for _, e := range ph.Edges {
 							if e != a && e != ssa.Value(ph) {
 								stale = a
@@ -1315,4 +1322,50 @@ func fatalExceptionAlwaysFailsTheConnection(c *kit.Ctx) {
 		})
 		c.Check(e == nil, recv, "fatal-exception-always-seen", cl.Pos(), "no way from the claim to a return without an error avoids the test of header.Exception", "receive can return without an error, and without having looked at the exception of the response header, after it claimed the call (the call's context has expired): a RegionServerStoppedException in that header is swallowed - the connection is not failed, the other requests in flight are not failed over: "+c.BlockPath(e))
 	}
+}
+
+// deferOperandNames: the identifiers that are operands (arguments, receiver) of the defer statement d, read from the
+// syntax; nil if the statement was not found or has operands that are not plain identifiers.
+func deferOperandNames(p *kit.Prog, fn *ssa.Function, d *ssa.Defer) map[string]bool {
+	if fn.Pkg == nil || !d.Pos().IsValid() {
+		return nil
+	}
+	pk := p.ByPath[fn.Pkg.Pkg.Path()]
+	if pk == nil {
+		return nil
+	}
+	var out map[string]bool
+	for _, f := range pk.Syntax {
+		if f.Pos() > d.Pos() || d.Pos() > f.End() {
+			continue
+		}
+		ast.Inspect(f, func(n ast.Node) bool {
+			ds, ok := n.(*ast.DeferStmt)
+			if !ok {
+				return true
+			}
+			if ds.Defer != d.Pos() && ds.Call.Lparen != d.Pos() && ds.Pos() != d.Pos() {
+				return true
+			}
+			names := map[string]bool{}
+			plain := true
+			for _, a := range ds.Call.Args {
+				if id, ok := a.(*ast.Ident); ok {
+					names[id.Name] = true
+				} else {
+					plain = false
+				}
+			}
+			if sel, ok := ds.Call.Fun.(*ast.SelectorExpr); ok {
+				if id, ok := sel.X.(*ast.Ident); ok {
+					names[id.Name] = true
+				}
+			}
+			if plain {
+				out = names
+			}
+			return false
+		})
+	}
+	return out
 }
